@@ -34,10 +34,10 @@ VARIABLE vec
 G(g) == TokGroup[g]
 
 \* ------------------------------------------------------------------ raw scalars
-SmallInts == -1..3
+SmallInts == IF Deep THEN -2..4 ELSE -1..3
 IntPts == SmallInts \cup EdgePts
 RawInts == UNION {{I(r, n) : r \in RepsOf(n)} : n \in IntPts} \cup {I("named", n) : n \in {0, 1, 2, IMax}}
-SmallHalves == -2..7
+SmallHalves == IF Deep THEN -4..9 ELSE -2..7
 RawFloats ==
     {F(r, h) : r \in FloatReps, h \in SmallHalves \cup {2 * n : n \in EdgePts}}
     \cup {F("named", 2), F("named", 3)}
@@ -60,13 +60,13 @@ ScalarRaw(s) == RawInts \cup RawFloats \cup RawBools \cup RawOther \cup RawStrs(
 
 \* ------------------------------------------------------------------ C02: scalar schemas
 UnitOpts == {None, Some("sec")}
-IntBP == BoundPairs({1, 2})
+IntBP == BoundPairs(IF Deep THEN {0, 1, 2, 3} ELSE {1, 2})
          \cup { <<Some(IMin), Some(IMax)>>, <<Some(IMin + 1), Some(IMax - 1)>>, <<Some(IMax), None>>,
                 <<None, Some(IMin)>>, <<Some(-1), Some(0)>>, <<Some(IMax - 1), Some(IMax)>> }
-FloatBP == BoundPairs({2, 3, 4})      \* half units: 1.0, 1.5, 2.0
+FloatBP == BoundPairs(IF Deep THEN {1, 2, 3, 4, 6} ELSE {2, 3, 4})      \* half units: 1.0, 1.5, 2.0
            \cup { <<Some(2 * IMin), Some(2 * IMax)>>, <<Some(2 * IMax), None>>, <<None, Some(2 * IMin)>>,
                   <<Some(2 * (IMax + 1)), None>>, <<Some(-1), Some(1)>> }
-SizeBP == BoundPairs({0, 1, 2})
+SizeBP == BoundPairs(IF Deep THEN {0, 1, 2, 3} ELSE {0, 1, 2})
 C02Scalars ==
     IntSchemas(IntBP, UnitOpts) \cup FloatSchemas(FloatBP, UnitOpts)
     \cup StringSchemas(SizeBP, OptOf(PatternIds))
@@ -95,6 +95,7 @@ ItemSchemas ==
 ElemCands ==
     { I64(0), I64(1), I("uint64", 2), I64(3), F64(2), F64(3), Str("1"), Str("a"), Str("abc"), Str("2s"),
       B(TRUE), Nil, FS("float64", "nan") }
+    \cup (IF Deep THEN {F("float32", 4), I("int8", 1), S("named", "a"), I64(IMax)} ELSE {})
 ScalarValueKinds == {"bool", "int", "float", "str"}
 Homog(xs) == Len(xs) > 0 /\ xs[1].k \in ScalarValueKinds /\ \A i \in DOMAIN xs : xs[i].k = xs[1].k /\ xs[i].rep = xs[1].rep
 MaxL == IF Deep THEN 3 ELSE 2
@@ -122,12 +123,13 @@ NativeLists(s) == {L("typed", xs) : xs \in SeqsUpTo(NativeElems(s.items), 3)}
 KeySchemas == { StringS(None, Some(1), None), IntS(Some(1), Some(2), None), EnumStrS(<<"a", "b">>, FALSE), EnumIntS(<<1, 2>>, None) }
 ValSchemas == { IntS(Some(1), Some(2), None), AnyS, StringS(Some(1), None, None) }
 KeyCands == << Str("a"), Str("b"), Str("1"), Str("ab"), I64(1), I("uint64", 1), I64(2), I64(3), F64(2), B(TRUE) >>
-ValCands == { I64(1), I64(3), Str("a") }
+ValCands == { I64(1), I64(3), Str("a") } \cup (IF Deep THEN {Nil, I("uint64", 2), F64(2)} ELSE {})
+Val2 == IF Deep THEN ValCands ELSE {I64(1), I64(3)}
 NK == Len(KeyCands)
 PairSeqs ==
     { <<>> }
     \cup { << <<KeyCands[i], w>> >> : i \in 1..NK, w \in ValCands }
-    \cup { << <<KeyCands[i], w1>>, <<KeyCands[j], w2>> >> : i \in 1..NK, j \in 1..NK, w1 \in {I64(1), I64(3)}, w2 \in {I64(1), I64(3)} }
+    \cup { << <<KeyCands[i], w1>>, <<KeyCands[j], w2>> >> : i \in 1..NK, j \in 1..NK, w1 \in Val2, w2 \in Val2 }
     \cup { << <<Str("a"), I64(1)>>, <<Str("b"), I64(1)>>, <<Str("1"), I64(2)>> >>,
            << <<I64(1), I64(1)>>, <<I64(2), I64(1)>>, <<I64(3), I64(2)>> >>,
            << <<I64(1), I64(1)>>, <<I64(2), I64(1)>>, <<Str("1"), I64(2)>> >> }
